@@ -117,6 +117,7 @@ Qed.
 (* deferred writer, closed after at least one Put: its bytes are the constructed archive of the roots
    and the de-duplicated puts *)
 Theorem deferred_car_file c ops s :
+  dc_faults c = [] ->   (* a healthy output target: write faults are C16/C20 *)
   d_inner (d_run c d_init ops) = Some s -> existsb is_close ops = true ->
   let o := eff_opts c in
   let ro := roots_opt (dc_nilroots c) (dc_roots c) in
@@ -124,10 +125,10 @@ Theorem deferred_car_file c ops s :
   car_file (writer_ct o) ro (spec_stored (dc_kind c) o ro [d_puts ops]) 0
   = Some (d_bytes c (d_run c d_init ops)).
 Proof.
-  intros Hin Hcl o ro Hfit.
+  intros Hnf Hin Hcl o ro Hfit.
   destruct (output_is_direct c ops s Hin) as (s0 & H0 & Hb). rewrite Hcl in Hb.
   destruct (session_car_file (dc_kind c) o (dc_nilroots c) (dc_roots c) [d_puts ops] Hfit) as (s' & outs & Hs & Hf).
-  unfold direct_open in H0.
+  unfold direct_open in H0. rewrite Hnf in H0.
   assert (Hd : exists outs', session (dc_kind c) o (dc_nilroots c) (dc_roots c) [d_puts ops]
                  = Ok (direct_run s0 (d_puts ops) true, outs', snd (st_finalize (direct_puts s0 (d_puts ops)))))
     by (unfold dc_kind in *; apply session_direct; exact H0).
